@@ -1123,6 +1123,12 @@ impl From<sql_ast::Expr> for ExprOrSource {
     }
 }
 
+/// The SQL text SQLite gets for a date literal with the given text (`DATE('..')`): exposes the private kernel translate_datetime_literal_with_sqlite_function.
+#[cfg(feature = "verif")]
+pub(super) fn verif_sqlite_date_literal(value: String) -> String {
+    translate_datetime_literal_with_sqlite_function(sql_ast::DataType::Date, value).to_string()
+}
+
 #[cfg(test)]
 mod test {
     use insta::assert_yaml_snapshot;
